@@ -1,5 +1,6 @@
 # -*- coding: utf-8 -*-
 import datetime
+import math
 from . import error
 from ..helper.number import to_number
 from .utils import OPERATOR_DICT, serialize_date, parse_date, date_1900
@@ -405,6 +406,10 @@ def evaluate_arithmetic(op, lval, rval):
 
     try:
         result = OPERATOR_DICT[op](lval, rval)
+        if isinstance(result, float) and math.isinf(result) and not (
+                isinstance(lval, float) and math.isinf(lval) or isinstance(rval, float) and math.isinf(rval)):
+            # float arithmetic overflows silently: beyond the largest number is #NUM!, not infinity
+            return error.NUM
         if 'result' in conversions[ltype][rtype]:
             result = conversions[ltype][rtype]['result'](result)
         return result
